@@ -142,6 +142,11 @@ class GarbageCollector:
         # current metadata is gone: abort (fail closed).
         self._require_hinted_metadata_present(metadata)
 
+        # A current_snapshot_id that names none of the listed snapshots means the
+        # snapshot list cannot be trusted (commits and reads refuse such a table
+        # as inconsistent): what it no longer lists would look unreachable.
+        self._require_current_snapshot_listed(metadata)
+
         logger.info(f"Starting garbage collection for {self.table_path}")
 
         # 2. Identify all reachable files. ANY failure here aborts the whole
@@ -310,6 +315,31 @@ class GarbageCollector:
                 f"storage failure, concurrent commit, or a leftover unpublished version); "
                 f"collecting against another version would delete live files. Nothing was deleted."
             )
+
+    def _require_current_snapshot_listed(self, metadata: Any) -> None:
+        """Abort when the metadata names a current snapshot it does not list.
+
+        Reachability is computed from metadata.snapshots. A metadata file whose
+        current_snapshot_id is set (not None / -1, the two spellings of "no
+        snapshot yet") but matches no entry of that list has lost at least the
+        table's current snapshot - a truncated or emptied "snapshots" section
+        still parses. Commits and reads refuse such a table as inconsistent;
+        a collection that trusted the list would delete every file of the
+        snapshots it no longer names.
+        """
+        current_id = metadata.current_snapshot_id
+        if current_id is None or current_id == -1:
+            return
+        for snapshot in metadata.snapshots:
+            if snapshot.snapshot_id == current_id:
+                return
+        raise GarbageCollectionAborted(
+            f"Aborting GC: table metadata is inconsistent: current_snapshot_id {current_id!r} "
+            f"does not match any snapshot in metadata.snapshots "
+            f"({[s.snapshot_id for s in metadata.snapshots]}). The snapshot list cannot be "
+            f"trusted; collecting against it would delete the files of the snapshots it lost. "
+            f"Nothing was deleted."
+        )
 
     def _load_inflight_protection(self, inflight_timeout_ms: int) -> Set[str]:
         """Collect paths protected by fresh in-flight markers.
